@@ -10,7 +10,7 @@ from fractions import Fraction as Fr
 
 import numpy as np
 
-from .common import And, Case, HarnessError, Iff, Or, band, call, close, elements, ite, payload
+from .common import And, Case, HarnessError, Iff, Or, as_ufunc_global, band, call, close, elements, ite, payload
 
 LEVEL = "other"
 MANIFEST = dict(
@@ -18,13 +18,19 @@ MANIFEST = dict(
     text=("Bounded symbolic execution of the real temperature arithmetic (symx): for every enumerated ordered pair of "
           "temperature units (K, R, degC, degF, delta_degC, delta_degF, the spellings °C/°F and the SI-prefixed forms of "
           "K, degC, delta_degC) x operation x call form - including every placement of an out= target (either operand itself, "
-          "a reversed view of it, a quantity of another unit, a plain ndarray) and one object used as both operands - the "
+          "a reversed view of it, a quantity of another unit, a plain ndarray), one object used as both operands, every provenance "
+          "of the operands' Unit objects (separately built, one Unit object passed twice, .units borrowed from the other operand, "
+          "reading * unit symbol, elements / slices / a reversed view of one array, deep-copied operands, deep-copied Units) and every operand kind (unyt_quantity, 0-d "
+          "unyt_array, array, mixed scalar/array) - the "
           "readings are z3 reals and z3 proves per path that a returned value equals the affine (kelvin) result expressed in "
           "the unit the result is labelled with, that conversions are the affine maps on every route (to / in_units / to_value / "
           "convert_to_units / Unit.get_conversion_factor with string, Unit and borrowed-unit targets; in_base / in_mks / in_cgs / "
           "convert_to_base / _mks / _cgs / get_base_equivalent for shipped and user-defined unit systems named by string, by "
           "object or through the registry; two- to six-step conversion chains; implicit conversions by item assignment, np.copyto "
-          "and list coercion), and that every forbidden combination raised; any model is replayed on plain unyt."),
+          "and list coercion), that np.diff / np.ediff1d with prepend/append/to_begin/to_end given as quantities of another difference "
+          "unit return the affine differences, and that every forbidden combination raised - including divmod in every spelling "
+          "(driven through the real __array_ufunc__ by an object-dtype stand-in for np.divmod) and the Unit-level product / quotient / "
+          "power of an offset scale with the identical or an equal Unit object; any model is replayed on plain unyt."),
     design="DESIGN.md section 4 C08",
     technique="symbolic execution of the real Python code over z3 real terms; SMT (QF_LRA/NRA) obligations per path; counterexample replay")
 EXPLANATION = (
@@ -51,26 +57,43 @@ EXPLANATION = (
     "reduce/accumulate forms, np.diff, np.ediff1d, np.ptp) either raise or return the affine result in the labelled unit "
     "(differences must be labelled with a difference unit) - for EVERY placement of the result: no out=, out= a fresh quantity of "
     "the right / left / a third unit, out= a plain ndarray, out=(o,), out positional, out= the left operand, out= the right operand, "
-    "out= a reversed view of either operand, and one object passed as both operands (and as out=); reductions and accumulations with "
+    "out= a reversed view of either operand, and one object passed as both operands (and as out=); for operands of one unit also "
+    "every PROVENANCE of their Unit objects (unyt tests `u0 is u1` before `u0 != u1`): one Unit object passed to both constructors, "
+    "the .units of the other operand, reading * one unit symbol, two elements / two slices of one array, an array and its reversed "
+    "view - in operator, ufunc and in-place form; for EVERY pair also operands restored by copy.deepcopy (both / the left one) and "
+    "operands built on deep-copied Units (new registry; dimensions equal to but not identical with the module singletons); and every operand KIND: unyt_quantity, 0-d unyt_array, 2-element array and the "
+    "mixed scalar/array shapes (a reading that is exactly 0 is one of the values z3 ranges over: np.count_nonzero on the payload "
+    "forks the path); reductions and accumulations with "
     "out= a fresh target of the same / another unit, a plain ndarray and (accumulate) the operand itself; both the returned value "
     "and the target must hold the result; "
-    "(6) comparisons and max/min of same-kind operands agree with the kelvin comparison (max/min with the same out= placements); "
+    "np.diff / np.ediff1d of difference-scale arrays with prepend / append / to_begin / to_end given as quantities of another "
+    "difference unit (by keyword, positionally, as 0-d quantity and as 1-element array) return the affine differences in the labelled unit; "
+    "(6) comparisons and max/min of same-kind operands agree with the kelvin comparison (max/min with the same out= placements, "
+    "provenances and operand kinds); "
     "(7) every forbidden call (two different offset scales in add/subtract/comparison/max/min; multiply, divide, floor-divide, "
     "square, sqrt, cbrt, power, reciprocal, product/quotient reductions of an offset-scale quantity, in every form including out= "
-    "an operand, a third-unit quantity or a plain ndarray) raised on that path, i.e. for all readings.")
+    "an operand, a third-unit quantity or a plain ndarray; divmod as builtin divmod(), np.divmod, __rdivmod__ and with out=(q, r) - "
+    "NumPy has no object-dtype loop for np.divmod, so in symbolic mode the real unyt_array.__array_ufunc__ is handed a stand-in that is "
+    "equal, hash-equal and (through the module globals of unyt.array) identical to np.divmod and applies SymReal.__divmod__ element-wise; "
+    "all of these also for operands sharing one Unit object in each provenance; multiplying / dividing a reading by its own Unit object "
+    "or an equal one; building a quantity whose unit is u*u, u/u, u**p, 1/u, u/delta_degC, K/u, u*m, m/u, u/s for an offset scale u "
+    "with the identical and with an equal Unit object) raised on that path, i.e. for all readings.")
 BOUNDS = {
     "quick": "units {K, R, degC, degF, delta_degC, delta_degF, °C, °F} + prefixes {m, k} of K/degC/delta_degC (14 spellings); "
              "all ordered pairs; additive and multiplicative ops in operator/ufunc/in-place/outer form and 10 out= placements for add/subtract (8 on scalars: no views; 5 for the multiplicative refusals) on "
-             "scalar and 2-element readings (per unit x unit-family case: the prefixed forms of one base unit share a case); one object "
+             "scalar, 2-element and mixed scalar/array readings, operands as unyt_quantity and as 0-d unyt_array; for same-unit pairs 5-7 "
+             "provenances of the shared Unit object x operator/ufunc/in-place; divmod in 4 spellings for every pair with an offset scale "
+             "(per unit x unit-family case: the prefixed forms of one base unit share a case); one object "
              "as both operands; multiplication/division by bare numbers, dimensionless and metre quantities and Unit objects; the power "
              "family with exponents {2, 3, -1, -2, 1/2, 1/3, 3/2, -1/2} (out= fresh and out= the operand); comparisons and max/min "
-             "(6 out= placements) on scalar readings; reductions/diff/ediff1d/ptp on 2-element arrays incl. out= targets; conversions "
+             "(6 out= placements) on scalar readings; reductions/diff/ediff1d/ptp on 2-element arrays incl. out= targets; diff/ediff1d with quantity-valued prepend/append/to_begin/"
+             "to_end of units {K, R, delta_degF, mK} (8 call spellings); Unit-level algebra of every offset spelling (22 forms); conversions "
              "on 4 routes x string targets (scalar and 2-element readings; copies: scalar), 5 routes x Unit / borrowed-unit targets "
              "(2-element); base-unit conversion: 8 unit systems (mks, cgs, imperial, galactic + 4 defined here) x 9-15 routes, scalar "
              "and 2-element, followed by an 8-step in-place history; chains: every middle unit x thirds {degF, mdegC, R}, scalar; "
              "implicit conversions: 5 routes x every holder unit",
-    "thorough": "same with all 22 SI prefix spellings (74 unit spellings, 5476 ordered pairs); additionally mixed scalar/array "
-                "operands, comparisons and max/min also on 2-element readings where at least one operand is an unprefixed "
+    "thorough": "same with all 22 SI prefix spellings (74 unit spellings, 5476 ordered pairs); additionally "
+                "comparisons and max/min also on 2-element readings where at least one operand is an unprefixed "
                 "spelling (prefixed x prefixed pairs: scalar readings only - cut for wall time), reductions on 3-element "
                 "arrays, second differences; Unit-object targets also on scalar readings; 11 unit systems; chains through all 74 middle "
                 "units with thirds {degF, mdegC, R, delta_degC}; the out= placements of max/min only for pairs of the 14 quick "
@@ -80,13 +103,19 @@ OUTSIDE = ("IEEE rounding/overflow (A1); integer/complex payloads (C17). Not obl
            "difference - point, point + point on the SAME offset scale (sum/mean of readings), comparisons/max/min of a point "
            "with a difference, remainder/mod/fmod, powers 0 and 1, ufuncs outside add/subtract/multiply/divide/power/"
            "comparison/max-min; the `**` operator with exponents 2, 0.5, -1 (ndarray.__pow__ turns them into np.square/np.sqrt/"
-           "np.reciprocal for float payloads only; those ufuncs and np.power with these exponents are checked); np.divmod (NumPy has no object-dtype loop for it, so the engine cannot drive it; its defect is "
-           "listed under C01/C04). Whether an *allowed* combination is refused is not judged (value-if-returned); an implicit "
+           "np.reciprocal for float payloads only; those ufuncs and np.power with these exponents are checked); divmod of two difference-scale operands (value and units are C01/C04's; "
+           "here divmod is only obliged to refuse offset-scale operands); prepend/append/to_begin/to_end given as offset-scale (point) "
+           "quantities. Whether an *allowed* combination is refused is not judged (value-if-returned); an implicit "
            "conversion may refuse. out= with where= masks, out= targets of integer dtype, and partially overlapping views other than "
            "the reversed view are not enumerated. The planck unit system (temperature base T_pl is not a unit of this property) and "
            "equivalence= conversions (C09) are outside. Units are the default registry's (or a registry that differs only in its "
            "unit system); user-defined offset units are C03's subject. Guards on the dtype of an out= target are followed under "
            "assumption A4 (an object payload stands for float64).")
+ASSUMPTIONS = [
+    "C08: np.divmod has no object-dtype loop; in symbolic mode the ufunc object handed to the real unyt_array.__array_ufunc__ is a "
+    "stand-in equal, hash-equal and (via the module globals of unyt.array) identical to np.divmod whose call applies "
+    "SymReal.__divmod__ element-wise (plain conformance runs and replays use divmod() / np.divmod / __rdivmod__)",
+]
 CONFORM = {"quick": 100000, "thorough": 600}
 
 # --------------------------------------------------------------------------------------------- oracle (independent of unyt)
@@ -521,6 +550,150 @@ def make_implicit_case(A, units):
     return Case(f"C08/implicit/{A}", h, bounds="symbolic: readings", weight=len(units))
 
 
+# --------------------------------------------------------------------------------------------- operand provenance, divmod
+
+class _ObjDivmod:
+    """np.divmod has no object-dtype loop, so NumPy refuses a symbolic payload before unyt's code is reached. In symbolic
+    mode the ufunc object handed to the real unyt_array.__array_ufunc__ is this stand-in: equal and hash-equal to np.divmod
+    (so `ufunc in multiple_output_operators`, `_ufunc_registry[ufunc]`, `ufunc in (modf, divmod_)` answer as for the real
+    one; identity tests through common.as_ufunc_global); its call applies SymReal.__divmod__ element-wise. unyt's own code
+    runs unchanged; plain runs (conformance, replay) use the builtin divmod / np.divmod / __rdivmod__."""
+    real = np.divmod
+
+    def __init__(self):
+        self.py = np.frompyfunc(lambda a, b: divmod(a, b), 2, 2)
+
+    def __eq__(self, o):
+        return o is self.real or o is self
+
+    def __hash__(self):
+        return hash(self.real)
+
+    def __getattr__(self, k):
+        return getattr(self.real, k)
+
+    def __call__(self, a, b, out=None, **kw):
+        q, r = self.py(a, b)
+        if out is not None and any(o is not None for o in out):
+            res = []
+            for o, v in zip(out, (q, r)):
+                if o is not None:
+                    o[...] = v
+                    res.append(o)
+                else:
+                    res.append(v)
+            return tuple(res)
+        return q, r
+
+
+_OBJ_DIVMOD = _ObjDivmod()
+DIVMOD_FORMS = ("op", "ufunc", "reflected", "out")
+
+
+def do_divmod(ctx, a, b, form, out=None):
+    """divmod(a, b) in one of its spellings; all of them are ONE call of unyt_array.__array_ufunc__(np.divmod, '__call__', a, b)
+    (ndarray.__divmod__/__rdivmod__ are np.divmod), which is what the symbolic mode drives directly"""
+    if not ctx.symbolic:
+        if form == "op":
+            return divmod(a, b)
+        if form == "reflected":
+            return b.__rdivmod__(a)
+        if form == "out":
+            return np.divmod(a, b, out=out)
+        return np.divmod(a, b)
+    kw = dict(out=out) if form == "out" else {}
+    with as_ufunc_global(ctx.mods, _OBJ_DIVMOD):
+        return a.__array_ufunc__(_OBJ_DIVMOD, "__call__", a, b, **kw)
+
+
+def joined(*arrs):
+    els = [e for a in arrs for e in elements(a)]
+    o = np.empty((len(els),), dtype=arrs[0].dtype)
+    for i, e in enumerate(els):
+        o[i] = e
+    return o
+
+
+def as_array(ctx, x, A):
+    """the operand-KIND axis: readings held in a unyt_array also where ctx.quantity would build a unyt_quantity (shape ())"""
+    return ctx.mods["unyt"].unyt_array(x.copy(), A)
+
+
+def built(mk):
+    """the operands of a call, built by thunk mk: a failure to BUILD them is never read as unyt refusing the call"""
+    r = call(mk)
+    if r[0] == "raise":
+        raise HarnessError(f"operands could not be built: {type(r[1]).__name__}: {str(r[1])[:200]}")
+    return r[1]
+
+
+def copied_pairs(ctx, A, B, x, y):
+    """provenance for ANY pair of units: operands restored by copy.deepcopy (new Unit objects in a new registry, dimensions that are
+    equal to but not identical with the module singletons) and operands built on a deep-copied Unit. (provenance, thunk -> (a, b))"""
+    import copy as _copy
+
+    def deep():
+        return _copy.deepcopy(ctx.quantity(x.copy(), A)), _copy.deepcopy(ctx.quantity(y.copy(), B))
+
+    def unitcopy():
+        unyt = ctx.mods["unyt"]
+        return ctx.quantity(x.copy(), unyt.Unit(A).copy(deep=True)), ctx.quantity(y.copy(), unyt.Unit(B).copy(deep=True))
+
+    def left_deep():
+        return _copy.deepcopy(ctx.quantity(x.copy(), A)), ctx.quantity(y.copy(), B)
+    return [("deep-copied operands", deep), ("operands on deep-copied Units", unitcopy), ("deep-copied left operand", left_deep)]
+
+
+def operand_pairs(ctx, A, B, x, y, separate=True):
+    """the PROVENANCE axis of a binary call: how the two operands came by their Unit objects. unyt tests units by identity
+    first ('is' before '=='), so operands that share one Unit object walk other branches than separately built ones.
+    (provenance, thunk -> (a, b), (xs, ys)); everything but 'separately built' needs A == B."""
+    unyt = ctx.mods["unyt"]
+    xs, ys = bcast(x, y)
+    prov = []
+    if separate:
+        prov.append(("separately built", lambda: (ctx.quantity(x.copy(), A), ctx.quantity(y.copy(), B)), (xs, ys)))
+    if A != B:
+        return prov
+
+    def one_unit():
+        u = unyt.Unit(A)
+        return ctx.quantity(x.copy(), u), ctx.quantity(y.copy(), u)
+
+    def borrowed():
+        a = ctx.quantity(x.copy(), A)
+        return a, ctx.quantity(y.copy(), a.units)
+
+    def symbol():
+        # the spelling `reading * unit symbol` (unyt.degC, unyt.degF ... are module-level Unit objects)
+        u = unyt.Unit(A)
+        return x.copy() * u, y.copy() * u
+    prov += [("one Unit object", one_unit, (xs, ys)), ("unit borrowed from the other operand", borrowed, (xs, ys)),
+             ("reading * one unit symbol", symbol, (xs, ys))]
+    if x.shape == () and y.shape == ():
+        def elems():
+            arr = ctx.quantity(joined(x, y), A)
+            return arr[0], arr[1]
+        prov.append(("elements of one array", elems, (xs, ys)))
+    if x.shape == (2,) and y.shape == (2,):
+        def slices():
+            arr = ctx.quantity(joined(x, y), A)
+            return arr[:2], arr[2:]
+
+        def view():
+            a = ctx.quantity(x.copy(), A)
+            return a, a[::-1]
+        exs = elements(x)
+        prov += [("slices of one array", slices, (xs, ys)), ("an array and its reversed view", view, (exs, exs[::-1]))]
+    if x.shape == y.shape:
+        def twice():
+            a = ctx.quantity(x.copy(), A)
+            return a, a
+        exs = elements(x)
+        prov.append(("one object twice", twice, (exs, exs)))
+    return prov
+
+
 # --------------------------------------------------------------------------------------------- additive pair table
 
 def additive_spec(op, oA, oB):
@@ -685,6 +858,31 @@ def additive_forms(ctx, op, A, B, x, y, tail=True):
             return (r, c)
         forms += [("ufunc, one object twice", same, (exs, exs)), ("op, one object twice", same_op, (exs, exs)),
                   ("out=the object that is both operands", same_out, (exs, exs)), ("inplace with itself", same_inplace, (exs, exs))]
+    if sa == () or sb == ():
+        # the operand-kind axis: a 0-d unyt_array where the forms above pass a unyt_quantity
+        forms += [("op, 0-d unyt_array operands", lambda: f(as_array(ctx, x, A), as_array(ctx, y, B)), (xs, ys)),
+                  ("ufunc, 0-d unyt_array operands", lambda: uf(as_array(ctx, x, A), as_array(ctx, y, B)), (xs, ys))]
+        if sb == ():
+            forms.append(("op, 0-d unyt_array right operand", lambda: f(qa(), as_array(ctx, y, B)), (xs, ys)))
+        if sa == ():
+            forms.append(("op, 0-d unyt_array left operand", lambda: f(as_array(ctx, x, A), qb()), (xs, ys)))
+    for pv, mk in copied_pairs(ctx, A, B, x, y):
+        forms.append((f"op, {pv}", lambda mk=mk: f(*built(mk)), (xs, ys)))
+        forms.append((f"ufunc, {pv}", lambda mk=mk: uf(*built(mk)), (xs, ys)))
+    if A == B:
+        # the provenance axis: operands that share their Unit object (one Unit passed twice, borrowed .units, reading * symbol,
+        # elements / slices / views of one array) must give what separately built operands give
+        for pv, mk, pr in operand_pairs(ctx, A, B, x, y, separate=False):
+            if pv == "one object twice":
+                continue  # spelled out above, with its out= forms
+            forms.append((f"op, {pv}", lambda mk=mk: f(*built(mk)), pr))
+            forms.append((f"ufunc, {pv}", lambda mk=mk: uf(*built(mk)), pr))
+
+            def inpl(mk=mk):
+                a, b = built(mk)
+                r = fi(a, b)
+                return (r, a)
+            forms.append((f"inplace, {pv}", inpl, pr))
     if sa == (2,) and sb == (2,):
         ex, ey = elements(x), elements(y)
         forms.append(("outer", lambda: uf.outer(qa(), qb()), ([ex[0], ex[0], ex[1], ex[1]], [ey[0], ey[1], ey[0], ey[1]])))
@@ -745,6 +943,31 @@ def multiplicative_forms(ctx, A, B, x, y):
         forms.append((f"{nm}/out=fresh quantity in a third unit", lambda uf=uf: uf(qa(), qb(), out=zeros(ctx, bs, third_unit(A, B)))))
     if sa == (2,) and sb == (2,):
         forms += [("mul/outer", lambda: np.multiply.outer(qa(), qb())), ("div/outer", lambda: np.divide.outer(qa(), qb()))]
+    if sa == () or sb == ():
+        forms += [("mul/op, 0-d unyt_array operands", lambda: as_array(ctx, x, A) * as_array(ctx, y, B)),
+                  ("div/op, 0-d unyt_array operands", lambda: as_array(ctx, x, A) / as_array(ctx, y, B)),
+                  ("floordiv/op, 0-d unyt_array operands", lambda: as_array(ctx, x, A) // as_array(ctx, y, B)),
+                  ("divmod/op, 0-d unyt_array operands", lambda: do_divmod(ctx, as_array(ctx, x, A), as_array(ctx, y, B), "op"))]
+    # divmod is a division too (quotient, remainder): every spelling, with and without out= targets
+    for dform in DIVMOD_FORMS:
+        def dm(dform=dform):
+            o = (zeros(ctx, bs, "dimensionless"), zeros(ctx, bs, A)) if dform == "out" else None
+            return do_divmod(ctx, qa(), qb(), dform, out=o)
+        forms.append((f"divmod/{dform}", dm))
+    for pv, mk in copied_pairs(ctx, A, B, x, y):
+        forms += [(f"mul/op, {pv}", lambda mk=mk: operator.mul(*built(mk))), (f"div/op, {pv}", lambda mk=mk: operator.truediv(*built(mk))),
+                  (f"floordiv/ufunc, {pv}", lambda mk=mk: np.floor_divide(*built(mk))),
+                  (f"divmod/op, {pv}", lambda mk=mk: do_divmod(ctx, *built(mk), "op"))]
+    if A == B:
+        # the provenance axis: the refusal must not depend on whether the operands share their Unit object
+        for pv, mk, _ in operand_pairs(ctx, A, B, x, y, separate=False):
+            forms += [(f"mul/op, {pv}", lambda mk=mk: operator.mul(*built(mk))), (f"mul/ufunc, {pv}", lambda mk=mk: np.multiply(*built(mk))),
+                      (f"div/op, {pv}", lambda mk=mk: operator.truediv(*built(mk))), (f"div/ufunc, {pv}", lambda mk=mk: np.divide(*built(mk))),
+                      (f"floordiv/op, {pv}", lambda mk=mk: operator.floordiv(*built(mk))),
+                      (f"floordiv/ufunc, {pv}", lambda mk=mk: np.floor_divide(*built(mk))),
+                      (f"mul/inplace, {pv}", lambda mk=mk: operator.imul(*built(mk))), (f"div/inplace, {pv}", lambda mk=mk: operator.itruediv(*built(mk)))]
+            for dform in DIVMOD_FORMS[:3]:
+                forms.append((f"divmod/{dform}, {pv}", lambda mk=mk, dform=dform: do_divmod(ctx, *built(mk), dform)))
     return forms
 
 
@@ -802,8 +1025,16 @@ def make_cmp_case(A, B, shape):
         tag = tagof(shape)
         for name, (f, ufn, truth) in CMP.items():
             uf = getattr(np, ufn)
-            for form, thunk in (("op", lambda: f(ctx.quantity(x.copy(), A), ctx.quantity(y.copy(), B))),
-                                ("ufunc", lambda: uf(ctx.quantity(x.copy(), A), ctx.quantity(y.copy(), B)))):
+            forms = [("op", lambda: f(ctx.quantity(x.copy(), A), ctx.quantity(y.copy(), B)), (xs, ys)),
+                     ("ufunc", lambda: uf(ctx.quantity(x.copy(), A), ctx.quantity(y.copy(), B)), (xs, ys))]
+            # the provenance axis (A == B): operands sharing one Unit object compare like separately built ones
+            for pv, mk, pr in operand_pairs(ctx, A, B, x, y, separate=False):
+                forms += [(f"op, {pv}", lambda mk=mk: f(*built(mk)), pr), (f"ufunc, {pv}", lambda mk=mk: uf(*built(mk)), pr)]
+            if shape == ():
+                forms += [("op, 0-d unyt_array operands", lambda: f(as_array(ctx, x, A), as_array(ctx, y, B)), (xs, ys)),
+                          ("op, 0-d unyt_array right operand", lambda: f(ctx.quantity(x.copy(), A), as_array(ctx, y, B)), (xs, ys))]
+            forms += [(f"op, {pv}", lambda mk=mk: f(*built(mk)), (xs, ys)) for pv, mk in copied_pairs(ctx, A, B, x, y)]
+            for form, thunk, (pxs, pys) in forms:
                 r = lib(thunk)
                 if r[0] == "raise":
                     ctx.observe(f"{name}/{form}", "raise:" + type(r[1]).__name__)
@@ -813,9 +1044,9 @@ def make_cmp_case(A, B, shape):
                     ctx.require("comparison/refuses two offset scales", r[0] == "raise", op=name, form=form, A=A, B=B, got=repr(r[1])[:80])
                 elif r[0] == "ok":
                     got = elements(r[1])
-                    ok = len(got) == len(xs)
+                    ok = len(got) == len(pxs)
                     conds = []
-                    for g, a, b in zip(got, xs, ys):
+                    for g, a, b in zip(got, pxs, pys):
                         ka, kb = kel(oA, a), kel(oB, b)
                         conds.append(Or(Iff(bool(g), truth(ka, kb)), close(ka, kb, extra=band(oA[2], oB[2]))))
                     ctx.require("comparison/agrees with kelvin comparison", And(ok, *conds), op=name, form=form, A=A, B=B, shape=tag)
@@ -840,15 +1071,22 @@ def make_maxmin_case(A, B, shape, out_targets=True):
                 o = zeros(ctx, shape, B)
                 r = uf(ctx.quantity(x.copy(), A), ctx.quantity(y.copy(), B), out=o)
                 return (r, o)
-            targets = [(fm, th) for fm, th, _ in out_target_forms(ctx, uf, A, B, x, y, None)] if out_targets else []
-            for form, thunk in [("ufunc", lambda: uf(ctx.quantity(x.copy(), A), ctx.quantity(y.copy(), B))), ("out", out)] + targets:
+            targets = [(fm, th, (xs, ys)) for fm, th, _ in out_target_forms(ctx, uf, A, B, x, y, None)] if out_targets else []
+            # the provenance axis (A == B): operands sharing one Unit object
+            shared = [(f"ufunc, {pv}", lambda mk=mk: uf(*built(mk)), pr) for pv, mk, pr in operand_pairs(ctx, A, B, x, y, separate=False)]
+            if shape == ():
+                shared += [("ufunc, 0-d unyt_array operands", lambda: uf(as_array(ctx, x, A), as_array(ctx, y, B)), (xs, ys)),
+                           ("ufunc, 0-d unyt_array right operand", lambda: uf(ctx.quantity(x.copy(), A), as_array(ctx, y, B)), (xs, ys))]
+            shared += [(f"ufunc, {pv}", lambda mk=mk: uf(*built(mk)), (xs, ys)) for pv, mk in copied_pairs(ctx, A, B, x, y)]
+            for form, thunk, (pxs, pys) in [("ufunc", lambda: uf(ctx.quantity(x.copy(), A), ctx.quantity(y.copy(), B)), (xs, ys)),
+                                            ("out", out, (xs, ys))] + targets + shared:
                 r = lib(thunk)
                 outcome_obs(ctx, f"{ufn}/{form}", r)
                 if spec == "raise":
                     ctx.require("maxmin/refuses two offset scales", r[0] == "raise", op=ufn, form=form, A=A, B=B, got=repr(r[1])[:80])
                 elif r[0] == "ok":
                     wants = []
-                    for a, b in zip(xs, ys):
+                    for a, b in zip(pxs, pys):
                         ka, kb = kel(oA, a), kel(oB, b)
                         w = ite((ka >= kb) if hi else (ka <= kb), ka, kb)
                         wants.append((w, (ka, kb, oA[2])))
@@ -891,6 +1129,13 @@ def power_forms(ctx, U, x):
     forms += [("square", "out=the operand", self_out(np.square)), ("reciprocal", "out=the operand", self_out(np.reciprocal)),
               ("sqrt", "out=the operand", self_out(np.sqrt)), ("cbrt", "out=the operand", self_out(np.cbrt)),
               ("square", "out=plain ndarray", lambda: np.square(q(), out=ctx.const_array(np.zeros(shape))))]
+    import copy as _copy
+
+    def qd():
+        return _copy.deepcopy(q())
+    forms += [("square", "ufunc, deep-copied operand", lambda: np.square(qd())), ("sqrt", "ufunc, deep-copied operand", lambda: np.sqrt(qd())),
+              ("reciprocal", "ufunc, deep-copied operand", lambda: np.reciprocal(qd())),
+              ("power", "ufunc 3, deep-copied operand", lambda: np.power(qd(), 3)), ("rdiv(1)", "op, deep-copied operand", lambda: 1.0 / qd())]
     for pname, p in (("2", 2), ("3", 3), ("-1", -1), ("-2", -2), ("1/2", 0.5), ("1/3", third), ("3/2", 1.5), ("-1/2", -0.5)):
         forms.append(("power", f"ufunc {pname}", lambda p=p: np.power(q(), p)))
         forms.append(("power", f"out {pname}", lambda p=p: np.power(q(), p, out=o())))
@@ -948,6 +1193,33 @@ def scaling_forms(ctx, U, x, z):
              ("div metre/ufunc", lambda: np.divide(q(), other("m"))), ("floordiv bare/op", lambda: q() // bare()),
              ("mul Unit/op", lambda: q() * unyt.Unit("m")), ("rmul Unit/op", lambda: unyt.Unit("m") * q()),
              ("div Unit/op", lambda: q() / unyt.Unit("s")), ("rdiv Unit/op", lambda: unyt.Unit("J") / q())]
+    # the scale itself as the Unit operand: the quantity's own Unit object (identical), an equal but separately built one
+    def own(fn):
+        def g():
+            c = q()
+            return fn(c, c.units)
+        return g
+    forms += [("mul own Unit/op", own(operator.mul)), ("div own Unit/op", own(operator.truediv)),
+              ("rmul own Unit/op", own(lambda c, u: u * c)), ("rdiv own Unit/op", own(lambda c, u: u / c)),
+              ("mul equal Unit/op", lambda: q() * unyt.Unit(U)), ("div equal Unit/op", lambda: q() / unyt.Unit(U)),
+              ("rdiv equal Unit/op", lambda: unyt.Unit(U) / q())]
+    # unit algebra: a quantity whose unit is the product / quotient / power of an offset scale cannot be built, whether the
+    # factors are the identical Unit object or equal ones
+    def derived(fn):
+        def g():
+            u = unyt.Unit(U)
+            return ctx.quantity(x.copy(), fn(u, unyt.Unit(U)))
+        return g
+    forms += [("unit algebra/u*u (one object)", derived(lambda u, v: u * u)), ("unit algebra/u*v (equal objects)", derived(lambda u, v: u * v)),
+              ("unit algebra/u/u (one object)", derived(lambda u, v: u / u)), ("unit algebra/u/v (equal objects)", derived(lambda u, v: u / v)),
+              ("unit algebra/u**2", derived(lambda u, v: u ** 2)), ("unit algebra/u**-1", derived(lambda u, v: u ** -1)),
+              ("unit algebra/u**0.5", derived(lambda u, v: u ** 0.5)), ("unit algebra/1/u", derived(lambda u, v: 1 / u)),
+              ("unit algebra/u/delta_degC", derived(lambda u, v: u / unyt.Unit("delta_degC"))),
+              ("unit algebra/K/u", derived(lambda u, v: unyt.Unit("K") / u)),
+              ("unit algebra/u*m", derived(lambda u, v: u * unyt.Unit("m"))), ("unit algebra/m/u", derived(lambda u, v: unyt.Unit("m") / u)),
+              ("unit algebra/u/s", derived(lambda u, v: u / unyt.Unit("s"))),
+              ("unit algebra/(x*u)/u", lambda: (lambda u: (x.copy() * u) / u)(unyt.Unit(U))),
+              ("unit algebra/(x*u)*u", lambda: (lambda u: (x.copy() * u) * u)(unyt.Unit(U)))]
     return forms
 
 
@@ -966,6 +1238,16 @@ def make_scaling_case(units, shapes):
 
 
 # --------------------------------------------------------------------------------------------- reductions, diff_helper
+
+DIFF_ARG_UNITS = ("K", "R", "delta_degF", "mK")
+
+
+def obj1(ctx, v):
+    """a 1-element payload array holding v"""
+    a = np.empty((1,), dtype=object if ctx.symbolic else float)
+    a[0] = v
+    return a
+
 
 def make_reduce_case(fam, prefixes, n, second=False):
     """fam: a family name, or 'points' = every offset-scale spelling (their reductions mostly refuse)"""
@@ -1021,6 +1303,31 @@ def make_reduce_case(fam, prefixes, n, second=False):
                 checks.append(("subtract.reduce", lambda: np.subtract.reduce(q()), [(a * xs[0] - a * xs[1], terms)]))
             d1 = [(a * xs[i + 1] - a * xs[i], terms) for i in range(n - 1)]
             checks += [("diff", lambda: np.diff(q()), d1), ("ediff1d", lambda: np.ediff1d(q()), d1)]
+            if o[0] == "D":
+                # the optional arguments of np.diff / np.ediff1d given as QUANTITIES of another difference unit P, by keyword
+                # and positionally: prepend/append join the readings (a difference of U minus a difference of P), to_begin/
+                # to_end join the differences; every returned number is read in the unit the result is labelled with
+                pv = ctx.real("p")
+                for P in DIFF_ARG_UNITS:
+                    if P == U:
+                        continue
+                    ap = oracle_of(P)[1]
+                    pk = ap * pv
+                    tp = terms + (pk,)
+
+                    def pq(P=P):
+                        return ctx.quantity(pv, P)
+                    dd = [(w, tp) for w, _ in d1]
+                    checks += [(f"diff(prepend={P})", lambda pq=pq: np.diff(q(), prepend=pq()), [(a * xs[0] - pk, tp)] + dd),
+                               (f"diff(append={P})", lambda pq=pq: np.diff(q(), append=pq()), dd + [(pk - a * xs[-1], tp)]),
+                               (f"diff(1, -1, {P})", lambda pq=pq: np.diff(q(), 1, -1, pq()), [(a * xs[0] - pk, tp)] + dd),
+                               (f"diff(1, -1, {P}, {P})", lambda pq=pq: np.diff(q(), 1, -1, pq(), pq()),
+                                [(a * xs[0] - pk, tp)] + dd + [(pk - a * xs[-1], tp)]),
+                               (f"diff(prepend=[{P}])", lambda P=P: np.diff(q(), prepend=ctx.quantity(joined(obj1(ctx, pv)), P)),
+                                [(a * xs[0] - pk, tp)] + dd),
+                               (f"ediff1d(to_end={P})", lambda pq=pq: np.ediff1d(q(), to_end=pq()), dd + [(pk, tp)]),
+                               (f"ediff1d(to_begin={P})", lambda pq=pq: np.ediff1d(q(), to_begin=pq()), [(pk, tp)] + dd),
+                               (f"ediff1d({P}, {P})", lambda pq=pq: np.ediff1d(q(), pq(), pq()), [(pk, tp)] + dd + [(pk, tp)])]
             if second and n >= 3:
                 d2 = [(a * xs[i + 2] - 2 * a * xs[i + 1] + a * xs[i], terms) for i in range(n - 2)]
                 checks.append(("diff(n=2)", lambda: np.diff(q(), n=2), d2))
@@ -1085,7 +1392,7 @@ def cases(tier, mods):
         out.append(make_chain_case(A, units, (), thirds))
         out.append(make_implicit_case(A, units))
     # additive + multiplicative pair table
-    sp = [((), ()), ((2,), (2,))] if quick else [((), ()), ((2,), (2,)), ((), (2,)), ((2,), ())]
+    sp = [((), ()), ((2,), (2,)), ((), (2,)), ((2,), ())]
     for A in units:
         for fb in fams:
             out.append(make_pair_case(A, fb, prefixes, sp))
